@@ -245,6 +245,27 @@ def special_bool():
         B.App('fb', B.FUN(B.BOOL, (B.BOOL,)), (('and', None, (p, q)),)),
         N(B.App('fb', B.FUN(B.BOOL, (B.BOOL,)), (('and', None, (p, q)),))),
     ]
+    # quantifiers binding several variables of which only some clash with a
+    # sibling's free or bound variables (partial alpha-renaming)
+    PB, QB = ('p0', B.BOOL), ('p1', B.BOOL)
+    RB = ('p2', B.BOOL)
+    out += [
+        ('and', None, (p, ('forall', (PB, QB), (('or', None, (p, q, r_)),)))),
+        ('or', None, (q, ('exists', (PB, QB), (('and', None, (p, q)),)), p)),
+        ('and', None, (('forall', (PB, QB), (('or', None, (p, q)),)),
+                       ('exists', (QB, RB), (('and', None, (q, r_)),)))),
+        ('or', None, (('forall', (PB, QB, RB), (('or', None, (p, N(q), r_)),
+                                               )),
+                      ('iff', None, (r_, q)))),
+        ('implies', None, (('exists', (PB, QB), (('iff', None, (p, q)),)),
+                           ('forall', (QB, PB), (('or', None, (p, q, r_)),)))),
+        ('and', None, (('le', None, (i0, i1)),
+                       ('forall', (('i0', B.INT), ('p1', B.BOOL)),
+                        (('or', None, (le, q)),)))),
+        ('and', None, (('forall', (('i0', B.INT), ('i1', B.INT)), (le,)),
+                       ('exists', (('i1', B.INT), ('p0', B.BOOL)),
+                        (('and', None, (le, p)),)), p)),
+    ]
     return out
 
 
@@ -367,7 +388,7 @@ def run(rep):
                 if want(proc):
                     ck.check(proc, b, j)
                     j += 1
-    n = 260 if quick else 30000
+    n = 200 if quick else 30000
     cfgs = bool_cfgs()
     rep.share(0.45)
     for k in range(n):
@@ -384,7 +405,7 @@ def run(rep):
                 ck.check(proc, b, j)
                 j += 1
     rep.share(0.55)
-    for b in sum_product_cases(rng, 120 if quick else 15000):
+    for b in sum_product_cases(rng, 100 if quick else 15000):
         if rep.out_of_time():
             break
         if want('times_distributor'):
@@ -392,7 +413,7 @@ def run(rep):
             j += 1
     common.fresh_env()
     rep.share(0.7)
-    for b in propagate_cases(rng, 150 if quick else 20000):
+    for b in propagate_cases(rng, 120 if quick else 20000):
         if rep.out_of_time():
             break
         for proc in ('propagate_toplevel', 'propagate_toplevel_nosimp'):
@@ -401,7 +422,7 @@ def run(rep):
                 j += 1
     common.fresh_env()
     rep.share(0.88)
-    for b in qelim_cases(rng, 100 if quick else 10000, False):
+    for b in qelim_cases(rng, 70 if quick else 10000, False):
         if rep.out_of_time():
             break
         for proc in ('factory_qelim_shannon', 'factory_qelim_selfsub',
@@ -410,7 +431,7 @@ def run(rep):
                 ck.check(proc, b, j)
                 j += 1
     rep.share(1.0)
-    for b in qelim_cases(rng, 100 if quick else 10000, True):
+    for b in qelim_cases(rng, 70 if quick else 10000, True):
         if rep.out_of_time():
             break
         for proc in ('qelim_shannon', 'qelim_selfsub'):
